@@ -71,14 +71,17 @@ BadEscLetters == {97, 120, 48, SP, 123, 35}       \* a x 0 space { # : none of \
 \* characters that are escapes on their own (\ " n r t) and a second '$' - is an undocumented escape
 BadVarLetters == {BS, QUOTE, 110, 114, 116, DOLLAR, 97, SP, HASH}
 XSet(kind) == IF kind = "escvar" THEN BadVarLetters ELSE BadEscLetters
+\* what stands before the command name: the label and, when the instruction has one, the output variable and '='
+\* (a quoted or escaped name is malformed in the command position behind `out =` as much as at the line start)
+NamePrefix(ins) == (IF ins.label = None THEN <<>> ELSE <<COLON>> \o ins.label \o <<SP>>) \o (IF ins.out = None THEN <<>> ELSE ins.out \o <<SP, EQ, SP>>)
 Malformed(kind, ins, a, x) ==        \* ins has a command; a = an extra argument body; x = a filler character
   LET pre == Render(ins, Plain(ins)) IN
   CASE kind = "qend"   -> pre \o <<SP, QUOTE>> \o Esc(a, FALSE)
     [] kind = "esc"    -> pre \o <<SP, QUOTE>> \o Esc(a, FALSE) \o <<BS, x>> \o <<QUOTE>>
     [] kind = "escvar" -> pre \o <<SP, QUOTE>> \o Esc(a, FALSE) \o <<BS, DOLLAR, x>> \o (IF x = DOLLAR THEN <<LBRACE, 97, 125>> ELSE <<>>) \o <<QUOTE>>
     [] kind = "bsend"  -> pre \o <<SP>> \o <<120, BS>>
-    [] kind = "nameq"  -> (IF ins.label = None THEN <<>> ELSE <<COLON>> \o ins.label \o <<SP>>) \o <<QUOTE>> \o ins.cmd \o <<QUOTE>>
-    [] kind = "namebs" -> (IF ins.label = None THEN <<>> ELSE <<COLON>> \o ins.label \o <<SP>>) \o ins.cmd \o <<BS, BS>> \o <<x>>
+    [] kind = "nameq"  -> NamePrefix(ins) \o <<QUOTE>> \o ins.cmd \o <<QUOTE>>
+    [] kind = "namebs" -> NamePrefix(ins) \o ins.cmd \o <<BS, BS>> \o <<x>>
     [] kind = "bang"   -> <<BANG>> \o Spaces(Len(a))
     [] kind = "bangx"  -> <<BANG, 122, 122>> \o (IF a = <<>> THEN <<>> ELSE <<SP>> \o Form(a, TRUE, FALSE))
 =============================================================================
